@@ -177,7 +177,21 @@ def body_cov(case, ctx):
         else:
             ctx.fail(f"{name}.rejected-valid-grid", f"{rule}({n}) through {desc}: ZeroDivisionError {exc}")
         return
-    P, W = np.asarray(new.points, dtype=float), np.asarray(new.weights, dtype=float)
+    P, W = np.array(new.points, dtype=float), np.array(new.weights, dtype=float)
+    # the same transform instance used again (and a third time) on the same grid: a change of variables is a pure
+    # function of (transform, grid) - same answer every time, earlier results and the source grid untouched
+    try:
+        again = [tf.transform_1d_grid(grid) for _ in range(2)]
+    except Exception as exc:  # noqa: BLE001 - the first call succeeded, so any failure now is history dependence
+        ctx.fail(f"{name}.repeated-use", f"{rule}({n}) through {desc}: second transform_1d_grid with the same instance raised {type(exc).__name__}: {exc}")
+        again = []
+    for k, g2 in enumerate(again):
+        same = np.array_equal(np.asarray(g2.points), P, equal_nan=True) and np.array_equal(np.asarray(g2.weights), W, equal_nan=True)
+        ctx.check(same, f"{name}.repeated-use", f"{rule}({n}) through {desc}: call #{k + 2} of transform_1d_grid with the same transform instance and grid differs from call #1")
+    ctx.check(np.array_equal(np.asarray(new.points), P, equal_nan=True) and np.array_equal(np.asarray(new.weights), W, equal_nan=True),
+              f"{name}.repeated-use", f"{rule}({n}) through {desc}: the grid returned by the first call changed after later calls")
+    ctx.check(np.array_equal(np.asarray(grid.points, dtype=float), x) and np.array_equal(np.asarray(grid.weights, dtype=float), w),
+              f"{name}.source-grid-modified", f"{rule}({n}) through {desc}: transform_1d_grid changed the source grid")
     if P.shape != x.shape or W.shape != x.shape:
         ctx.fail(f"{name}.shape", f"{rule}({n}) through {desc}: points {P.shape}, weights {W.shape}, expected {x.shape}")
         return
